@@ -107,6 +107,7 @@ pub struct Out {
     w: Option<BufWriter<File>>,
     pub mem: Vec<String>,
     pub lines: u64,
+    cap: Option<Vec<String>>,
 }
 
 impl Out {
@@ -115,13 +116,29 @@ impl Out {
             eprintln!("cannot create {}: {}", path, e);
             std::process::exit(2)
         });
-        Out { w: Some(BufWriter::with_capacity(1 << 20, f)), mem: Vec::new(), lines: 0 }
+        Out { w: Some(BufWriter::with_capacity(1 << 20, f)), mem: Vec::new(), lines: 0, cap: None }
     }
     /// in-memory sink (graph replay keeps the events of the current path for the mismatch report)
     pub fn memory() -> Self {
-        Out { w: None, mem: Vec::new(), lines: 0 }
+        Out { w: None, mem: Vec::new(), lines: 0, cap: None }
+    }
+    /// hold back the following events (run-length compression of repeated call patterns)
+    pub fn begin_capture(&mut self) {
+        self.cap = Some(Vec::new());
+    }
+    pub fn end_capture(&mut self) -> Vec<String> {
+        self.cap.take().unwrap_or_default()
+    }
+    pub fn emit_all(&mut self, v: &[String]) {
+        for l in v {
+            self.line(l);
+        }
     }
     pub fn line(&mut self, s: &str) {
+        if let Some(c) = self.cap.as_mut() {
+            c.push(s.to_string());
+            return;
+        }
         match self.w.as_mut() {
             Some(w) => {
                 w.write_all(s.as_bytes()).unwrap();
